@@ -19,7 +19,7 @@ use zipora::compression::dict_zip::{DfaCacheConfig, SuffixArrayDictionary, Suffi
 use zipora::compression::suffix_array::{SuffixArrayCompressor, SuffixArrayConfig as CompConfig};
 
 const HEADER: &str = r#"From ZV.Common Require Import Base Run.
-From ZV.C12 Require Import Spec Model ModelDict ModelCases.
+From ZV.C12 Require Import Spec Model ModelDict ModelEsa ModelCases.
 Open Scope nat_scope.
 "#;
 
@@ -42,6 +42,8 @@ struct Ctx {
     dict_coq: usize,
     dict_coq_budget: usize,
     core_coq: usize,
+    esa_coq: usize,
+    esa_coq_budget: usize,
 }
 
 // ---------- the oracle: the property itself, naively ----------
@@ -102,6 +104,11 @@ fn config_for(alg: Alg, variant: u64, n: usize) -> SuffixArrayConfig {
 fn coq_nat_list(xs: &[usize]) -> String {
     let v: Vec<String> = xs.iter().map(|x| x.to_string()).collect();
     format!("[{}]%nat", v.join("; "))
+}
+
+fn coq_opt_list(xs: &[Option<usize>]) -> String {
+    let v: Vec<String> = xs.iter().map(|x| match x { Some(v) => format!("Some {}", v), None => "None".to_string() }).collect();
+    format!("[{}]%N", v.join("; "))
 }
 
 /// What one construction + its queries returned, for the Coq side.
@@ -236,6 +243,9 @@ fn enhanced_case(cx: &mut Ctx, t: &[u8], force_coq: bool) {
     let thr = SuffixArrayConfig::default().adaptive_threshold;
     let resolved = SuffixArrayBuilder::new(SuffixArrayConfig::default()).select_algorithm(t);
     let class = sais_class(resolved);
+    let mut esa_sa: [Option<Vec<usize>>; 2] = [None, None];
+    let mut esa_probes: Option<Vec<Option<usize>>> = None;
+    let mut esa_bw: Option<Vec<u8>> = None;
     for which in 0..2 {
         let r = guarded(|| if which == 0 { EnhancedSuffixArray::with_lcp(t) } else { EnhancedSuffixArray::with_bwt(t) });
         let e = match r {
@@ -253,18 +263,39 @@ fn enhanced_case(cx: &mut Ctx, t: &[u8], force_coq: bool) {
                 Some(l) => {
                     if verdict.is_ok() { if let Err(why) = check_lcp(t, &sa, l.as_slice()) { cx.sum.fail(cell, None, cj.clone(), &why); } }
                     obs.lcp = Some(l.as_slice().to_vec());
+                    // the accessor, one past the end included
+                    let probes: Vec<Option<usize>> = (0..=sa.len()).map(|k| l.lcp_at(k)).collect();
+                    if verdict.is_ok() {
+                        for k in 0..=sa.len() {
+                            let want = if k == sa.len() { None } else if k == 0 { Some(0) } else {
+                                Some(t[sa[k - 1]..].iter().zip(t[sa[k]..].iter()).take_while(|(x, y)| x == y).count()) };
+                            if probes[k] != want { cx.sum.fail(cell, None, cj.clone(), &format!("lcp_at({}) = {:?}, the common prefix of the suffixes at ranks {} and {} has length {:?}", k, probes[k], k.wrapping_sub(1), k, want)); break; }
+                        }
+                    }
+                    esa_probes = Some(probes);
                 }
             }
+            if e.bwt().is_some() { cx.sum.fail(cell, None, cj.clone(), "with_lcp carries a BWT"); }
         } else {
             match e.bwt() {
                 None => cx.sum.fail(cell, None, cj.clone(), "with_bwt has no BWT"),
                 Some(b) => {
                     if verdict.is_ok() && b != &bwt_naive(t, &sa)[..] { cx.sum.fail(cell, None, cj.clone(), &format!("BWT {:?} is not the bytes preceding the sorted suffixes", &b[..b.len().min(16)])); }
                     obs.bwt = Some(b.to_vec());
+                    esa_bw = Some(b.to_vec());
                 }
             }
         }
+        esa_sa[which] = Some(sa.clone());
         push_coq(cx, 4, thr, alg_index(resolved), t, &obs, &cj, force_coq);
+    }
+    if let (Some(s1), Some(s2), Some(pr), Some(bw)) = (&esa_sa[0], &esa_sa[1], &esa_probes, &esa_bw) {
+        if n <= 200 && (force_coq || cx.esa_coq < cx.esa_coq_budget) {
+            cx.esa_coq += 1;
+            let term = format!("EsaAlg {}%N {} {} {} {} {}", alg_index(resolved), coq_bytes(t), coq_n_list(s1.iter().map(|&x| x as u128)),
+                coq_opt_list(pr), coq_n_list(s2.iter().map(|&x| x as u128)), coq_bytes(bw));
+            cx.shards.push(term, cj.clone());
+        }
     }
 }
 
@@ -330,6 +361,13 @@ fn compress_case(cx: &mut Ctx, preset: usize, t: &[u8], pats: &[Vec<u8>], force_
                 obs.pats.push((p.clone(), range, (range.0, range.1.saturating_sub(range.0))));
             }
         }
+    }
+    if n <= 200 && probes.len() == len && (force_coq || cx.esa_coq < cx.esa_coq_budget) {
+        cx.esa_coq += 1;
+        let mut lp: Vec<Option<usize>> = lcp_o.iter().map(|(_, l)| *l).collect(); lp.push(lcp_end);
+        let term = format!("EsaComp {} {} {} {} {} {}%N {}%N {}", coq_bool(with_lcp), coq_bytes(t), coq_n_list(sa.iter().map(|&x| x as u128)),
+            coq_opt_list(&sa_o), coq_opt_list(&lp), tl, len, coq_bool(empty));
+        cx.shards.push(term, cj.clone());
     }
     push_coq(cx, 5, 10_000, 0, t, &obs, &cj, force_coq);
 }
@@ -547,6 +585,8 @@ pub fn run(args: &Args) {
         comps,
         dict_coq: 0,
         core_coq: 0,
+        esa_coq: 0,
+        esa_coq_budget: if args.thorough { 400 } else { 50 },
         dict_coq_budget: if args.thorough { 900 } else { 120 },
     };
     for (cell, st) in [("build/SAIS", "S-only"), ("EnhancedSuffixArray", "M+S"), ("lcp", "M+S"), ("search", "M+S"),
